@@ -134,6 +134,11 @@ def u32(v):
     return chr8(v // 16777216 % 256) + chr8(v // 65536 % 256) + chr8(v // 256 % 256) + chr8(v % 256)
 
 
+def as_bytes(v):
+    """what write_string puts on the wire for a bytes or str argument"""
+    return v if isinstance(v, bytes) else utf8(v)
+
+
 def enc_string(b):
     """string: uint32 length followed by that many bytes"""
     return u32(len(b)) + b
@@ -209,3 +214,25 @@ def u32_arith(v):
 def u32_val(v):
     """uint32 encoding is 4 bytes whose big-endian value is v"""
     return val_be(u32(v)) == v and len(u32(v)) == 4
+
+
+# ---------------------------------------------------------------------------------------------- RFC 4253 messages
+def enc_namelist(l):
+    """name-list: a string containing a comma-separated list of names (RFC 4251 section 5)"""
+    return enc_string(utf8(join(',', l)))
+
+
+def dec_namelist(b):
+    return split(utf8_decode_replace(b), ',')
+
+
+@recursive('bytes;int->bytes', fuel=1)
+def fld(d, p):
+    """the RFC 4251 string starting at offset p of d"""
+    return d[p + 4:p + 4 + val_be(d[p:p + 4])]
+
+
+@recursive('bytes;int->int', fuel=1)
+def nxt(d, p):
+    """offset just after the string that starts at offset p"""
+    return p + 4 + len(d[p + 4:p + 4 + val_be(d[p:p + 4])])
